@@ -53,11 +53,14 @@ Theorem C19_sspoc_update_modes_rejects : forall have rows v,
 Proof. exact sspoc_update_modes_rejects. Qed.
 Print Assumptions C19_sspoc_update_modes_rejects.
 
-Theorem C19_basis_guards : forall v avail k rows,
+Theorem C19_basis_guards : forall v avail k rows width,
   (bad_count v -> g_identity_ctor v = Err ValueError /\ g_svd_ctor v = Err ValueError /\ (v <> PAuto -> g_rp_ctor v = Err ValueError)) /\
   (bad_count v \/ too_large v avail -> g_basis_modes true avail v = Err ValueError) /\
-  (rows < k -> g_identity_fit k rows = Err ValueError).
-Proof. intros. split; [apply basis_ctors_reject|split; [apply basis_modes_rejects|apply identity_fit_rejects]]. Qed.
+  (rows < k -> g_identity_fit k rows = Err ValueError) /\
+  (rows < k \/ width < k -> g_svd_fit k rows width = Err ValueError).
+Proof.
+  intros. split; [apply basis_ctors_reject|split; [apply basis_modes_rejects|split; [apply identity_fit_rejects|apply svd_fit_rejects]]].
+Qed.
 Print Assumptions C19_basis_guards.
 
 Theorem C19_optimizer_and_helper_guards : forall d l n ns dt xmin xmax ymin ymax nxi nyi,
